@@ -15,6 +15,18 @@
 //!  * deposit / withdraw events carry exactly what was moved;
 //!  * "nobody takes out more than they put in", in the two tolerance-free forms of DESIGN §3 C05:
 //!    (i) immediate round trips from every expanded state (leaf probes), (ii) acting-alone windows.
+//!
+//! Two kinds of operations never change the state and are therefore reported to the engine as
+//! "state unchanged" (they show up in the `refused` column of the outcome histogram; their real
+//! outcomes are in the `#roundtrip.* executed` / `#view-sweeps` counters): `Sweep` (getters only)
+//! and `RoundTrip` (two real calls inside a host frame that is rolled back afterwards, so that
+//! every probe starts from exactly the reached state; the engine re-checks the storage digest).
+//!
+//! Worlds per offset: `wide` = the full amount list on histories of length 2 from the seeds
+//! {empty, donated} and {2^k deposited + donated}; `deep` = a narrow amount list (1, 7 / 1, 10^o+1 /
+//! 1, max_withdraw / 1, max_redeem, donate 7) on histories of length 4 (quick) resp. 5 (thorough,
+//! offsets 0, 1, 3, 10). Depth 3 with the full list is ~1.5 M transitions per offset (the fan-out
+//! of accepted calls is ~70), which is why the long histories use the narrow list.
 
 use num_bigint::BigInt;
 use soroban_sdk::testutils::Address as _;
@@ -839,7 +851,8 @@ impl World for VaultW {
         for owner in 0..U {
             let (mw, mr) = mx[owner];
             for f in FS {
-                let am = vec![0, 1, 2, 3, 7, 10, pw1, mw, mw.saturating_add(1), mr, mr.saturating_add(1)];
+                // (i128::MAX: the operation must fail whenever its preview does)
+                let am = vec![0, 1, 2, 3, 7, 10, pw1, mw, mw.saturating_add(1), mr, mr.saturating_add(1), i128::MAX];
                 for a in dedup(am) {
                     v.push(Op::Call { f, owner, operator: owner, receiver: owner, a });
                 }
@@ -940,14 +953,18 @@ fn main() {
     main_with(
         "C05",
         "model_checking",
-        "level-BFS over histories of deposit/mint/withdraw/redeem by U1,U2 (operator = owner = receiver with amounts {0,1,2,3,7,10,10^o+1,max_withdraw(+1),max_redeem(+1)}; operator≠owner through asset/share allowances and receiver≠owner with {7 | max, max+1}) and donations {1,7,10^o+1} D->vault on the real fungible-vault example over a Base asset, one world per decimals offset, seeds {empty, 3 assets donated to the empty vault, 2^k assets deposited + 2^(k-2)+3 donated with k = min(100,120-4o) so that products exceed i128}; in every step: preview/convert getters vs exact big-integer formula (and at i128::MAX, 2^100+1 in every new state), return = preview, exact asset/share/allowance movement on the named parties, rate monotone (cross-multiplied), rounding direction, maxima, event contents, acting-alone windows; from every expanded state 8 round-trip shapes x 2 users x 3 amounts as leaf probes; non-trivial = distinct (storage, window) state reached through >=1 accepted call",
+        "level-BFS over histories of the real fungible-vault example (over a Base asset; users U1,U2, donor D) per decimals offset o; seeds {empty, 3 assets donated to the empty vault} and {U1 deposited 2^k-7 then 2^(k-2)+3 donated, k=min(100,120-4o): products exceed i128}. WIDE worlds (depth 2): deposit/mint/withdraw/redeem with operator=owner=receiver and amounts {0,1,2,3,7,10,10^o+1,max_withdraw(+1),max_redeem(+1),i128::MAX}, operator!=owner (asset/share allowances) and/or receiver!=owner with {7 | max,max+1} (thorough: also 1, 10^o+1), donations {1,7,10^o+1}. DEEP worlds (depth 4; thorough 5 for o in {0,1,3,10}; big seed one less): deposit{1,7} mint{1,10^o+1} withdraw{1,max} redeem{1,max} per user, donate 7. Every call: preview and convert getter at the amount vs exact big-integer formula (fails iff result exceeds i128), return = preview, exact asset/share/allowance movement on exactly the named parties, rate (A+1)/(S+10^o) non-decreasing (cross-multiplied), rounding direction, above max refused / at max accepted, event contents, acting-alone windows. Every expanded state: all six conversion getters at every alphabet amount + 2^100+1 + i128::MAX, maxima <= owner's entitlement, and 8 round-trip shapes (real calls, rolled back) per user and amount. non-trivial = distinct (storage, acting-alone window) state reached through >=1 accepted call",
         |tier: Tier, r: &mut Runner| {
             let th = tier == Tier::Thorough;
-            let offsets: Vec<u32> = tier.pick(vec![0, 1, 3, 10], (0..=10).collect());
+            let mut offsets: Vec<u32> = tier.pick(vec![0, 1, 3, 10], (0..=10).collect());
+            // developer knobs (calibration / sensitivity runs only): C05_OFFSETS=3,10 C05_BUDGET=3600
+            if let Ok(x) = std::env::var("C05_OFFSETS") {
+                offsets = x.split(',').filter_map(|s| s.parse().ok()).collect();
+            }
             // one wall-clock budget for the whole tier, handed to each world as what is left of it
             // (calibration, 16 idle cores: quick ~20 s, thorough ~4.5 min)
             let t0 = std::time::Instant::now();
-            let budget: u64 = tier.pick(42, 570);
+            let budget: u64 = std::env::var("C05_BUDGET").ok().and_then(|s| s.parse().ok()).unwrap_or(tier.pick(42, 570));
             let left = || budget.saturating_sub(t0.elapsed().as_secs()).max(1);
             let tag = |a: &'static str, b: &'static str| if th { b } else { a };
             // full alphabet, short histories
